@@ -72,6 +72,7 @@ type defScn struct {
 	Mid381  int `json:"mid381"`
 	WantMid int `json:"wantmid381"`
 	WantPre int `json:"wantpre381"`
+	WantRoot int `json:"wantroot381"`
 	Lh381   int `json:"lh381"`
 	Want381 int `json:"want381"`
 }
@@ -466,17 +467,18 @@ func c04Units(s *defScn, line []byte, out *drv.Out) {
 	// one declaration in a style sheet matched by two elements with different font sizes, for several length-valued
 	// properties: each element computes against its own font size, in either access order
 	val := fmt.Sprintf("%d%s", sc.N, sc.Unit)
-	doc2 := fmt.Sprintf(`<html style="%s"><head><style>body, p { padding-left:%s; text-indent:%s; letter-spacing:%s; border-spacing:%s %s; transform:translate(%s, %s); margin-top:%s } body { line-height:150%% }</style></head><body style="%s"><p style="%s">x</p></body></html>`,
-		c04FsDecl(sc.Root), val, val, val, val, val, val, val, val, c04FsDecl(sc.Mid), c04FsDecl(sc.Leaf))
+	doc2 := fmt.Sprintf(`<html style="%s"><head><style>html, body, p { padding-left:%s; text-indent:%s; letter-spacing:%s; border-spacing:%s %s; transform:translate(%s, %s); margin-top:%s; `+
+		`grid-template-columns:%s; grid-auto-rows:%s; border-image-outset:%s; background-image:linear-gradient(red %s, blue) } body { line-height:150%% }</style></head><body style="%s"><p style="%s">x</p></body></html>`,
+		c04FsDecl(sc.Root), val, val, val, val, val, val, val, val, val, val, val, val, c04FsDecl(sc.Mid), c04FsDecl(sc.Leaf))
 	for order := 0; order < 2; order++ {
 		n2, err := c04Styles(doc2)
 		if err != nil {
 			out.Fatal(err.Error())
 			return
 		}
-		idx := []int{1, 2}
+		idx := []int{0, 1, 2}
 		if order == 1 {
-			idx = []int{2, 1}
+			idx = []int{2, 1, 0}
 		}
 		for _, node := range idx {
 			st := n2.sf.Get(n2.nodes[node], "")
@@ -484,10 +486,31 @@ func c04Units(s *defScn, line []byte, out *drv.Out) {
 			if node == 1 {
 				want = float64(s.WantMid) / 381
 			}
+			if node == 0 {
+				want = float64(s.WantRoot) / 381
+			}
 			tr := st.GetTransform()
 			got := map[string]float64{
 				"padding-left": float64(st.GetPaddingLeft().Value), "text-indent": float64(st.GetTextIndent().Value), "letter-spacing": float64(st.GetLetterSpacing().Value),
 				"border-spacing": float64(st.GetBorderSpacing()[0].Value), "margin-top": float64(st.GetMarginTop().Value),
+			}
+			// lengths inside structured values (tracks, outsets, colour stops)
+			got["grid-template-columns"], got["grid-auto-rows"], got["border-image-outset"], got["gradient-colour-stop"] = math.NaN(), math.NaN(), math.NaN(), math.NaN()
+			if gt := st.GetGridTemplateColumns(); len(gt.Names) == 3 {
+				if gd, ok := gt.Names[1].(pr.GridDims); ok {
+					got["grid-template-columns"] = float64(gd.V.Value)
+				}
+			}
+			if ga := st.GetGridAutoRows(); len(ga) == 1 {
+				got["grid-auto-rows"] = float64(ga[0].V.Value)
+			}
+			if bo := st.GetBorderImageOutset(); len(bo) == 4 {
+				got["border-image-outset"] = float64(bo[0].Value)
+			}
+			if im := st.GetBackgroundImage(); len(im) == 1 {
+				if lg, ok := im[0].(pr.LinearGradient); ok && len(lg.ColorStops) == 2 {
+					got["gradient-colour-stop"] = float64(lg.ColorStops[0].Position.Value)
+				}
 			}
 			if len(tr) == 1 && len(tr[0].Dimensions) == 2 {
 				got["transform-translate"] = float64(tr[0].Dimensions[1].Value)
